@@ -28,6 +28,8 @@ def main():
         args.remove('--round3'); root = '/tmp/sc'; names = {'a': 'e', 'b': 'f'}
     if '--round4' in args:
         args.remove('--round4'); root = '/tmp/sd'; names = {'a': 'g', 'b': 'h'}
+    if '--round5' in args:
+        args.remove('--round5'); root = '/tmp/se'; names = {'a': 'i', 'b': 'j'}
     for prop in args:
         src = '%s/%s/out' % (root, prop)
         for v in ('a', 'b'):
